@@ -599,9 +599,10 @@ fn run_validity(r: &ValRow, obs: &mut Obs) -> CheckResult {
         let d = Mode::Der.decode(&exp[..], Validity::take_from).map_err(|e| e.to_string());
         ensure!(d == Ok(v), "Validity::take_from({}) = {:?}, expected {:?}", show(&exp), d, v);
         // A window written by someone else may use the other time form for either end
-        // (GeneralizedTime for any year, UTCTime where the year has one): RFC 5280
-        // 4.1.2.5 has relying parties process both. The fixed-width form names the
-        // same instants whichever type carries it.
+        // (GeneralizedTime for any year, UTCTime where the year has one). RFC 5280 4.1.2.5
+        // has relying parties process both, the statement only says which forms are
+        // accepted at most: such a window may be refused, but if it is decoded it names the
+        // same instants whichever type carries the fixed-width form.
         for (ub, ua) in [(false, false), (true, false), (false, true), (true, true)] {
             if (ub && !utc_form(cb.y)) || (ua && !utc_form(ca.y)) || (ub == utc_form(cb.y) && ua == utc_form(ca.y)) {
                 continue;
@@ -611,12 +612,17 @@ fn run_validity(r: &ValRow, obs: &mut Obs) -> CheckResult {
             alt.extend_from_slice(&eb);
             alt.extend_from_slice(&ea);
             for mode in [Mode::Der, Mode::Ber] {
-                let d = mode.decode(&alt[..], Validity::take_from).map_err(|e| e.to_string());
-                if d != Ok(v) {
-                    return Err(Fail::sig("validity-other-time-form", format!(
-                        "Validity::take_from({}) in {:?} mode = {:?}, expected {:?} (notBefore as {}, notAfter as {})",
-                        show(&alt), mode, d, v, if ub { "UTCTime" } else { "GeneralizedTime" }, if ua { "UTCTime" } else { "GeneralizedTime" }
-                    )));
+                match mode.decode(&alt[..], Validity::take_from) {
+                    Err(_) => obs.label("other-time-form-refused"),
+                    Ok(d) => {
+                        obs.label("other-time-form-accepted");
+                        if d != v {
+                            return Err(Fail::sig("validity-other-time-form", format!(
+                                "Validity::take_from({}) in {:?} mode = {:?}, expected {:?} (notBefore as {}, notAfter as {})",
+                                show(&alt), mode, d, v, if ub { "UTCTime" } else { "GeneralizedTime" }, if ua { "UTCTime" } else { "GeneralizedTime" }
+                            )));
+                        }
+                    }
                 }
             }
             evals += 1;
